@@ -10,7 +10,8 @@ package main
 //                  or not), in-tx-before-bank-op, in-tx-after-bank-op
 //   query kinds  : bank-balance (plain gRPC read), ethcall-view, estimate-gas, ethcall-bank-precompile (eth_call of a
 //                  contract that makes the FunToken precompile move NIBI), simulate-ethtx (an Ethereum tx executed in simulation
-//                  on a branch of the committed state), simulate-convert (MsgConvertCoinToEvm in simulation)
+//                  on a branch of the committed state), simulate-convert (MsgConvertCoinToEvm in simulation),
+//                  ethcall-value-precompile-query (eth_call with value into a precompile query method)
 
 import (
 	"encoding/json"
@@ -125,7 +126,7 @@ func runInterleave(r *hx.R, n int, w *hx.W, _ []string) error {
 	digestSkip = nil
 
 	queryKinds := []string{"none", "bank-balance", "ethcall-view", "estimate-gas", "ethcall-bank-precompile", "simulate-ethtx", "simulate-convert",
-		"simulate-convert-bad", "simulate-createft-bad", "simulate-createft-erc20", "simulate-ethtx-bad"}
+		"simulate-convert-bad", "simulate-createft-bad", "simulate-createft-erc20", "simulate-ethtx-bad", "ethcall-value-precompile-query"}
 	yields := []string{"between-txs", "in-tx-before-bank-op", "in-tx-after-bank-op", "tx-starts-while-simulation-in-flight"}
 
 	runQuery := func(kind string, amt int64) string {
@@ -157,6 +158,21 @@ func runInterleave(r *hx.R, n int, w *hx.W, _ []string) error {
 					return "ok"
 				}
 				res, err := k.EthCall(sdk.WrapSDKContext(qctx), req)
+				if err != nil || res.VmError != "" {
+					return "err"
+				}
+				return "ok"
+			case "ethcall-value-precompile-query":
+				// an eth_call that carries value into a precompile QUERY method: the value transfer dirties the caller in the query's
+				// private StateDB, the precompile entry flushes that StateDB into the query's cache context (balance decrease = burn path of
+				// SetAccBalance); whether the method then refuses the value does not matter
+				to := precompile.PrecompileAddr_FunToken
+				data, _ := ftABI.Pack("whoAmI", accs[0].EthAddr.Hex())
+				hd := hexutil.Bytes(data)
+				from := accs[0].EthAddr
+				val := hexutil.Big(*new(big.Int).Mul(big.NewInt(amt), big.NewInt(1_000_000_000_000)))
+				jargs, _ := json.Marshal(evm.JsonTxArgs{From: &from, To: &to, Input: &hd, Value: &val})
+				res, err := k.EthCall(sdk.WrapSDKContext(qctx), &evm.EthCallRequest{Args: jargs, GasCap: 5_000_000})
 				if err != nil || res.VmError != "" {
 					return "err"
 				}
